@@ -35,10 +35,40 @@ func vfSum(base, off, n uintptr) uint8 {
 	return s
 }
 
+// vfTab: a firmware table placed by the harness, and how far the identity mappings requested for its first
+// frame reached after the first request (the header read follows it) and after all requests.
+type vfTab struct {
+	addr, length        uintptr
+	calls               int
+	firstEnd, mappedEnd uintptr
+}
+
+var vfTabs []vfTab
+
 func vfSeams() (unmaps *int) {
 	n := 0
 	mapFn = func(mm.Page, mm.Frame, vmm.PageTableEntryFlag) *kernel.Error { return nil }
-	identityMapFn = func(f mm.Frame, size uintptr, fl vmm.PageTableEntryFlag) (mm.Page, *kernel.Error) { return mm.Page(f), nil }
+	identityMapFn = func(f mm.Frame, size uintptr, fl vmm.PageTableEntryFlag) (mm.Page, *kernel.Error) {
+		pages := size >> mm.PageShift
+		if size&(mm.PageSize-1) != 0 {
+			pages++
+		}
+		end := f.Address() + pages<<mm.PageShift
+		for i := range vfTabs {
+			t := &vfTabs[i]
+			if mm.FrameFromAddress(t.addr) != f {
+				continue
+			}
+			t.calls++
+			if t.calls == 1 {
+				t.firstEnd = end
+			}
+			if end > t.mappedEnd {
+				t.mappedEnd = end
+			}
+		}
+		return mm.Page(f), nil
+	}
 	unmapFn = func(mm.Page) *kernel.Error { n++; return nil }
 	return &n
 }
@@ -47,8 +77,10 @@ func vfSeams() (unmaps *int) {
 // 32-bit root for revision 0 and the 64-bit root otherwise; the window is unmapped on every path.
 func Verif_C14_rsdp() {
 	slots := zzverif.Param("slots", 3, 4)
-	sizeExt := unsafe.Sizeof(table.ExtRSDPDescriptor{})
-	cap := uintptr(16*slots) + sizeExt
+	// ACPI 2.0+: the extended root pointer is 36 bytes and its extended checksum covers exactly those
+	// (the Go struct is padded to 40 bytes; the oracle is stated from the specification, not from the struct)
+	sizeExt := uintptr(36)
+	cap := uintptr(16*slots) + sizeExt + 4
 	buf := zzverif.Region("bios", vfFwBase, cap, 1)
 	base := uintptr(unsafe.Pointer(&buf[0]))
 	unmaps := vfSeams()
@@ -94,8 +126,7 @@ const (
 	vfSlotOff = uintptr(128)
 	vfSlotLen = uintptr(44) // 36-byte header + 8 payload bytes
 	vfFadtOff = uintptr(512)
-	vfDsdtOff = uintptr(1024)
-	vfFwCap   = uintptr(1152)
+	vfFwCap   = uintptr(2*4096 - 20 + 44)
 )
 
 func vfHdr(base, off uintptr) *table.SDTHeader { return (*table.SDTHeader)(unsafe.Pointer(base + off)) }
@@ -108,6 +139,13 @@ func Verif_C14_enumerate() {
 	buf := zzverif.Region("fw", vfFwBase, vfFwCap, 1)
 	base := uintptr(unsafe.Pointer(&buf[0]))
 	_ = vfSeams()
+	// the DSDT slot is alone in its frame: at the start of the second page, or 20 bytes before the end of it
+	// (so that its header and its body cross into the third page)
+	crossing := zzverif.Choice("dsdt-crosses-page", 2) == 1
+	dsdtOff := uintptr(4096)
+	if crossing {
+		dsdtOff = 2*4096 - 20
+	}
 	useX := zzverif.Choice("xsdt", 2) == 1
 	withFadt := zzverif.Choice("fadt", 2) == 1
 	nl := ne
@@ -179,16 +217,16 @@ func Verif_C14_enumerate() {
 		// each DSDT pointer is either absent (0) or designates the DSDT slot; at least one is present
 		switch zzverif.Choice("dsdtptrs", 3) {
 		case 0:
-			f.Dsdt, f.Ext.Dsdt = uint32(base+vfDsdtOff), 0
+			f.Dsdt, f.Ext.Dsdt = uint32(base+dsdtOff), 0
 		case 1:
 			// only the 64-bit pointer: legal on ACPI 2+ firmware only (older FADTs have no X_DSDT field)
 			zzverif.Assume(root.Revision >= 2)
-			f.Dsdt, f.Ext.Dsdt = 0, uint64(base+vfDsdtOff)
+			f.Dsdt, f.Ext.Dsdt = 0, uint64(base+dsdtOff)
 		case 2:
-			f.Dsdt, f.Ext.Dsdt = uint32(base+vfDsdtOff), uint64(base+vfDsdtOff)
+			f.Dsdt, f.Ext.Dsdt = uint32(base+dsdtOff), uint64(base+dsdtOff)
 		}
 		dsdtPtr32, dsdtPtr64 = f.Dsdt, f.Ext.Dsdt
-		d := vfHdr(base, vfDsdtOff)
+		d := vfHdr(base, dsdtOff)
 		d.Length = uint32(vfSlotLen)
 		zzverif.Assume(d.Signature != fadtSig)
 		for t := 0; t < ne; t++ {
@@ -197,6 +235,7 @@ func Verif_C14_enumerate() {
 	}
 	// KF-C14-1 (fixed): revision >= 2 root with a FADT that only carries the 32-bit DSDT pointer
 	drv := &acpiDriver{rsdtAddr: base + vfRootOff, useXSDT: useX}
+	vfTabs = []vfTab{{addr: base + dsdtOff, length: vfSlotLen}}
 	var w vfCount
 	var err *kernel.Error
 	panicked := zzverif.Catch(func() { err = drv.DriverInit(&w) })
@@ -238,11 +277,19 @@ func Verif_C14_enumerate() {
 			// which pointer designates the DSDT: 32-bit for revision < 2 roots, otherwise the 64-bit one (32-bit when that is zero)
 			use64 := zzverif.And(root.Revision >= 2, dsdtPtr64 != 0)
 			ptr := zzverif.IteU64(use64, dsdtPtr64, uint64(dsdtPtr32))
-			d := vfHdr(base, vfDsdtOff)
-			dvalid := vfSum(base, vfDsdtOff, vfSlotLen) == 0
+			d := vfHdr(base, dsdtOff)
+			dvalid := vfSum(base, dsdtOff, vfSlotLen) == 0
 			dgot, dok := drv.tableMap[string(d.Signature[:])]
 			if ptr != 0 {
 				zzverif.Reach("dsdt")
+				// what the driver asked to have mapped before reading the header, and before summing the table,
+				// must reach the end of what it then read.
+				// KF-C14-2: mapACPITable asks for Length bytes from the start of the frame and ignores the table's
+				// offset inside its first page, so the tail of a table that crosses a page boundary is never mapped.
+				zzverif.Known("KF-C14-2", crossing)
+				t := vfTabs[0]
+				zzverif.Assert(zzverif.And(t.calls >= 1, t.firstEnd >= t.addr+36), "the mapping requested before a table header is read covers the header")
+				zzverif.Assert(zzverif.And(t.calls >= 2, t.mappedEnd >= t.addr+t.length), "the mapping requested before a table is checksummed covers the whole table")
 				zzverif.Assert(dok == dvalid, "the DSDT a valid FADT points to is registered iff its bytes sum to zero")
 				if dok {
 					zzverif.Assert(dgot == d, "DSDT entry points at the table")
